@@ -151,7 +151,7 @@ def build_alphabet(darsia):
             out.append(A(g, f, it))
         return np.concatenate(out)
 
-    def wass(kind, pair, shape=(4, 5)):
+    def wass(kind, pair, shape=(4, 5), vs=(1.0, 0.75)):
         from vf.gen import wass as W
 
         if kind.endswith("_big") or kind.endswith("_big_aa"):
@@ -193,11 +193,11 @@ def build_alphabet(darsia):
             if kind == "bregman_amg_custom":
                 # user-defined pyamg set-up forcing a genuine hierarchy on this small system
                 opt.update({"amg_options": {"max_coarse": 5, "max_levels": 3}})
-            return W.solver_class(darsia, cfg[0])(darsia.Grid(shape, [1.0, 0.75]), None, opt)
+            return W.solver_class(darsia, cfg[0])(darsia.Grid(shape, list(vs)), None, opt)
 
         # the grid (shape) is fixed per object; voxel sizes of the images must match the object
-        m1, m2 = W.images(darsia, a, b, [1.0, 0.75])
-        w1 = shared("W:" + kind, ctor)
+        m1, m2 = W.images(darsia, a, b, list(vs))
+        w1 = shared("W:" + kind + ("" if tuple(vs) == (1.0, 0.75) else ":" + str(tuple(vs))), ctor)
         if kind == "bregman_amg_custom":
             np.random.seed(0)  # pyamg's multilevel set-up draws from the global generator
         d, info = w1(m1, m2)
@@ -274,6 +274,9 @@ def build_alphabet(darsia):
         "mg_upd_A": lambda: mg_update_arrays("A"),
         "mg_upd_B": lambda: mg_update_arrays("B"),
         "mg_upd_scalar": mg_update_scalar,
+        # independent solver objects on a grid with the same voxel counts and another physical size
+        "w_newton_other_domain": lambda: wass("newton_direct", 0, vs=(2.0, 0.5)),
+        "w_bregman_other_domain": lambda: wass("bregman_direct", 0, vs=(2.0, 0.5)),
         "sb_caller_arrays_A": lambda: sb_caller_arrays("A"),
         "sb_caller_arrays_B": lambda: sb_caller_arrays("B"),
     }
@@ -289,7 +292,7 @@ LETTERS = [
     "mg2_small", "mg2_regular", "w_bregman_L2_A", "w_bregman_L2_B", "w_bregman_L2fr_A", "w_bregman_L2fr_B", "w_bregman_amg_custom",
     "w_bregman_big_A", "w_bregman_big_B", "w_bregman_big_aa_A", "w_bregman_big_aa_B", "w_newton_big_A", "w_newton_big_B",
     "tvd_obj_A", "tvd_obj_B", "tvd_obj_x0", "w_bregman_amg_multilevel_A", "w_bregman_amg_multilevel_B", "w_newton_cg_multilevel_A",
-    "mg_upd_scalar", "sb_caller_arrays_A", "sb_caller_arrays_B",
+    "mg_upd_scalar", "sb_caller_arrays_A", "sb_caller_arrays_B", "w_newton_other_domain", "w_bregman_other_domain",
 ]
 # letters that can share state with each other (same object or same module-level default)
 GROUPS = {
@@ -305,9 +308,9 @@ GROUPS = {
     "w_amg_multilevel": ["w_bregman_amg_multilevel_A", "w_bregman_amg_multilevel_B", "w_newton_cg_multilevel_A", "w_bregman_amg_custom"],
     "tvd": ["tvd_chambolle"],
     "anderson": ["aa_seq1", "aa_seq2"],
-    "w_newton": ["w_newton_A", "w_newton_B"],
+    "w_newton": ["w_newton_A", "w_newton_B", "w_newton_other_domain"],
     "w_newton_amg_aa": ["w_newton_amg_aa_A", "w_newton_amg_aa_B"],
-    "w_bregman": ["w_bregman_A", "w_bregman_B"],
+    "w_bregman": ["w_bregman_A", "w_bregman_B", "w_bregman_other_domain"],
     "w_bregman_amg": ["w_bregman_amg_A", "w_bregman_amg_B", "w_bregman_amg_custom"],
     "mg_two_level": ["mg2_small", "mg2_regular"],
     "w_bregman_L2": ["w_bregman_L2_A", "w_bregman_L2_B"],
